@@ -481,6 +481,89 @@ Qed.
 Lemma blocks_never_panic_refuted : exists now w, v_inv (w_val w) = true /\ end_block false now w = Panic "div-by-zero".
 Proof. exists 105, (mkW [] (mkV [] [] []) [mkSpool true 0 100 PREC [1000]]). split; reflexivity. Qed.
 
+(* ------------------------------------------------------------------ the steps as the tree has them (flags regenerated by gen_panics) *)
+Lemma is_quorum_never_panics : forall q votes voters, 0 <= q -> 0 <= voters < 2 ^ 64 ->
+  is_panic (is_quorum q votes voters) = false.
+Proof.
+  intros q votes voters Hq Hv. unfold is_quorum.
+  destruct (voters <? votes); [reflexivity|]. destruct (PREC <? q) eqn:E2; [reflexivity|].
+  assert (R : dec_in_range (chop_round (dec_of_int voters * q)) = true).
+  { apply dec_in_range_small.
+    assert (0 <= chop_round (dec_of_int voters * q) <= voters * PREC).
+    { apply chop_round_nonneg_bounds; unfold dec_of_int; unfold PREC in *; nia. }
+    unfold PREC in *. change (2 ^ 315) with (2 ^ 64 * 2 ^ 251). change (2^64) with 18446744073709551616 in *.
+    assert (1000000000000000000 < 2 ^ 251) by reflexivity. nia. }
+  unfold dmul. rewrite R. reflexivity.
+Qed.
+(* with the IsQuorum error treated as "quorum not reached" NO vote/voter combination panics *)
+Lemma process_quorum_off_never_panics : forall q votes voters, 0 <= q -> 0 <= voters < 2 ^ 64 ->
+  is_panic (process_quorum_on false q votes voters) = false.
+Proof.
+  intros q votes voters Hq Hv. pose proof (is_quorum_never_panics q votes voters Hq Hv) as H.
+  unfold process_quorum_on. destruct (is_quorum q votes voters); simpl in *; congruence.
+Qed.
+Lemma quorum_by_flag : forall b : bool,
+  if b then (exists q votes voters, 0 <= q <= PREC /\ 0 <= voters < 2 ^ 64 /\ is_panic (process_quorum_on b q votes voters) = true)
+  else (forall q votes voters, 0 <= q -> 0 <= voters < 2 ^ 64 -> is_panic (process_quorum_on b q votes voters) = false).
+Proof.
+  intros [|]; [|exact process_quorum_off_never_panics].
+  exists 330000000000000000, 2, 1. split; [unfold PREC; lia|]. split; [lia|reflexivity].
+Qed.
+Lemma withdraw_checked_never_panics : forall n modbal poolbal amt, is_panic (withdraw_loop_checked n modbal poolbal amt) = false.
+Proof.
+  induction n as [|n IH]; intros; [reflexivity|]. simpl. destruct (amt =? 0); [apply IH|].
+  destruct (modbal <? amt); [reflexivity|]. destruct (poolbal <? amt); [reflexivity|apply IH].
+Qed.
+Lemma withdraw_by_flag : forall b : bool,
+  if b then (exists n amt s1 s2, lifecycle (withdraw_handler_on b n amt) s1 s2 = Some (Panic "neg-coin"))
+  else (forall n amt s, is_panic (apply_proposal (withdraw_handler_on b n amt) s) = false).
+Proof.
+  intros [|].
+  - exists 1%nat, 900, (500000001000, 1000), (500000000500, 500). reflexivity.
+  - intros n amt [m p]. unfold apply_proposal, withdraw_handler_on. cbn [fst snd].
+    pose proof (withdraw_checked_never_panics n m p amt) as H.
+    destruct (withdraw_loop_checked n m p amt); simpl in *; congruence.
+Qed.
+(* the checked claim never raises the coin panics (only the 315-bit Dec overflow remains) *)
+Lemma relabel_dmul_cases : forall a b, (exists r, relabel (dmul a b) = Ok r) \/ relabel (dmul a b) = Panic "int-overflow".
+Proof. intros a b. unfold dmul. destruct (dec_in_range _); [left; simpl; eexists; reflexivity|right; reflexivity]. Qed.
+Lemma claim_checked_no_coin_panic : forall poolbal rate w cstart last now cend expiry,
+  claim_checked poolbal rate w cstart last now cend expiry <> Panic "neg-coin".
+Proof.
+  intros. unfold claim_checked. destruct (w =? 0); [discriminate|].
+  destruct (_ <=? _); [discriminate|].
+  destruct (relabel_dmul_cases rate (dec_of_int (Z.min ((if negb (cend =? 0) && (cend <? now) then cend else now) - Z.max cstart last) expiry))) as [[r ->]| ->]; [|discriminate].
+  cbn [bind]. destruct (relabel_dmul_cases r w) as [[r2 ->]| ->]; [|discriminate]. cbn [bind].
+  destruct (_ <? 0); [discriminate|]. destruct (_ <? _); discriminate.
+Qed.
+Lemma claim_by_flag : forall b : bool,
+  if b then (exists poolbal rate w cstart last now cend expiry, claim_on b poolbal rate w cstart last now cend expiry = Panic "neg-coin")
+  else (forall poolbal rate w cstart last now cend expiry, claim_on b poolbal rate w cstart last now cend expiry <> Panic "neg-coin").
+Proof.
+  intros [|]; [|exact claim_checked_no_coin_panic].
+  exists 5000, (1000 * PREC), PREC, 0, 1700000005, 1700000031, 0, 1000000. vm_compute. reflexivity.
+Qed.
+Lemma ubi_by_flag : forall b : bool,
+  if b then (exists amount, 0 <= amount < two64 /\ ubi_mint_on b amount = Panic "neg-coin")
+  else (forall amount, is_panic (ubi_mint_on b amount) = false).
+Proof. intros [|]; [exists two63; split; [unfold two63, two64; lia|reflexivity]|reflexivity]. Qed.
+Lemma spend_by_flag : forall b : bool,
+  if b then (forall now ps, forallb pool_bounded ps = true -> is_panic (spend_endblock b now ps) = false)
+  else (exists ops, srun b ops = Panic "div-by-zero").
+Proof. intros [|]; [exact spend_endblock_guarded_never_panics|exact spend_period_zero_refuted]. Qed.
+
+(* one EndBlock of gov + staking + spending with the guard: NO condition on the pools beyond magnitudes *)
+Lemma blocks_never_panic_guarded : forall now w,
+  Forall (fun qg => 0 <= fst qg <= PREC /\ g_inv (snd qg) /\ Z.of_nat (List.length (g_holders (snd qg))) < 2 ^ 64) (w_due w) ->
+  v_inv (w_val w) = true -> forallb pool_bounded (w_pools w) = true ->
+  is_panic (end_block true now w) = false.
+Proof.
+  intros now w Hg Hv Hp. unfold end_block. rewrite (gov_endblock_safe _ Hg). cbn [bind].
+  unfold vend. unfold v_inv in Hv. rewrite Hv. cbn [bind].
+  pose proof (spend_endblock_guarded_never_panics now (w_pools w) Hp) as H.
+  destruct (spend_endblock true now (w_pools w)); simpl in *; congruence.
+Qed.
+
 (* ------------------------------------------------------------------ the spec checker accepts exactly the non-panicking model runs *)
 Lemma c06_chk_sound : forall {A} due site (o : outcome A),
   blk_clauses (mkBlk due PhOk [] (obs_of site o) PhOk) = [] <-> is_panic o = false.
